@@ -8,6 +8,7 @@ import (
 	"fmt"
 	"os"
 	"path/filepath"
+	"strings"
 	"sync"
 
 	"verifharness/vhlib"
@@ -156,7 +157,11 @@ func (e Env) RunCase(in Input) (*vhlib.Case, error) {
 			obs[i] = "(" + CoqOp(o) + ", " + vhlib.CoqBool(o.OK) + ")"
 		}
 		c.Coq = fmt.Sprintf("(CTrace %s %s %s)", CoqWs(cal.MW), cList(obs), CoqRead(cal.Read))
-		c.Observed = map[string]any{"nops": len(cal.Ops), "read": cal.Read}
+		tr := make([]string, len(cal.Ops))
+		for i, o := range cal.Ops {
+			tr[i] = o.String()
+		}
+		c.Observed = map[string]any{"nops": len(cal.Ops), "read": cal.Read, "trace": tr}
 		c.Tags = []string{"trace", fmt.Sprintf("writeouts-%d", len(in.Hist))}
 		c.Nontrivial = len(cal.Ops) > 0
 		return c, nil
@@ -323,7 +328,14 @@ func RealPath(root string, r Ref, _ string) string {
 			}
 		}
 	case "tmp":
-		cs, _ := filepath.Glob(filepath.Join(ms[0], ".tmp-metadata-*"))
+		// the temporary file: whatever is in the day directory besides .blockmeta and the column files
+		es, _ := os.ReadDir(ms[0])
+		var cs []string
+		for _, e := range es {
+			if e.Name() != ".blockmeta" && !strings.HasSuffix(e.Name(), ".gpf") {
+				cs = append(cs, filepath.Join(ms[0], e.Name()))
+			}
+		}
 		if len(cs) == 1 {
 			return cs[0]
 		}
